@@ -66,6 +66,8 @@ func boolInput(id run.CaseID) (subj, clp Paths) {
 		subj, clp = gen.RectSoup(r)
 	case "rect-cavity":
 		subj, clp = gen.RectCavity(r)
+	case "touching":
+		subj, clp = gen.Touching(r)
 	case "nested", "nested-small", "nested-large":
 		R := gen.PickOf(r, 500.0, 20000.0, 3.0e6, 2.0e8)
 		if id.Family == "nested-large" { // magnitudes at which two unrelated rings practically never come within the rounding band of each other
